@@ -320,7 +320,9 @@ func (bs *baseServer) Handshake(transportName string, ctx *types.HttpContext) (*
 		// request this closure was created for: only that response gets the cookie
 		if !req.Query().Has("sid") {
 			if cookie := bs.opts.Cookie(); cookie != nil {
-				headers.Set("Set-Cookie", cookie.String())
+				sessionCookie := *cookie
+				sessionCookie.Value = id
+				headers.Set("Set-Cookie", sessionCookie.String())
 			}
 			bs.Emit("initial_headers", headers, req)
 		}
